@@ -969,3 +969,83 @@ func init() {
 	externals["(*github.com/valyala/fasthttp.Client).Do"] = do
 	externals["(*github.com/valyala/fasthttp.Client).DoRedirects"] = do
 }
+
+// ---------------------------------------------------------------------------
+// session codec (C15): encoding/gob is reflection-driven and not interpretable. The two methods
+// that wrap it are replaced by a table-backed codec with gob's observable behaviour: encode
+// snapshots the map, decode *merges* the snapshot into the target map; unknown bytes fail.
+
+type gobSnap struct{ ents [][2]value }
+
+func structFieldByName(t types.Type, v structure, name string) *value {
+	st := t.Underlying().(*types.Struct)
+	for k := 0; k < st.NumFields(); k++ {
+		if st.Field(k).Name() == name {
+			return &v[k]
+		}
+	}
+	panic("structFieldByName: no field " + name)
+}
+
+func sessionDataMap(fr *frame, recv value) *omap {
+	st := deref(fr.fn.Signature.Recv().Type())
+	sess := (*recv.(*value)).(structure)
+	dp := *structFieldByName(st, sess, "data")
+	dptr, _ := dp.(*value)
+	if dptr == nil {
+		return nil
+	}
+	dt := st.Underlying().(*types.Struct)
+	var dataT types.Type
+	for k := 0; k < dt.NumFields(); k++ {
+		if dt.Field(k).Name() == "data" {
+			dataT = deref(dt.Field(k).Type())
+		}
+	}
+	m, _ := (*structFieldByName(dataT, (*dptr).(structure), "Data")).(*omap)
+	return m
+}
+
+func init() {
+	externals["(*github.com/gofiber/fiber/v3/middleware/session.Session).encodeSessionData"] = func(fr *frame, a []value) value {
+		i := fr.i
+		i.stubsUsed["session gob codec = table-backed codec (encode snapshots, decode merges)"] = true
+		m := sessionDataMap(fr, a[0])
+		snap := &gobSnap{}
+		if m != nil {
+			for _, e := range m.ents {
+				snap.ents = append(snap.ents, [2]value{e.k, copyAgg(e.v)})
+			}
+		}
+		tab, _ := i.ps.extra["gob"].([]*gobSnap)
+		tab = append(tab, snap)
+		i.ps.extra["gob"] = tab
+		tok := fmt.Sprintf("GOB#%d", len(tab)-1)
+		cells := make([]value, len(tok))
+		for k := 0; k < len(tok); k++ {
+			cells[k] = tok[k]
+		}
+		return tuple{cells, iface{}}
+	}
+	externals["(*github.com/gofiber/fiber/v3/middleware/session.Session).decodeSessionData"] = func(fr *frame, a []value) value {
+		i := fr.i
+		raw, ok := goString(symstr{a[1].([]value)})
+		tab, _ := i.ps.extra["gob"].([]*gobSnap)
+		var n int
+		if !ok || !strings.HasPrefix(raw, "GOB#") {
+			return iface{i.runtimeErrorString, "gob: malformed session data"}
+		}
+		if _, err := fmt.Sscanf(raw[4:], "%d", &n); err != nil || n < 0 || n >= len(tab) {
+			return iface{i.runtimeErrorString, "gob: malformed session data"}
+		}
+		m := sessionDataMap(fr, a[0])
+		if m == nil {
+			return iface{i.runtimeErrorString, "gob: decode into nil map"}
+		}
+		for _, e := range tab[n].ents {
+			m.insert(fr, e[0], copyAgg(e[1]))
+		}
+		return iface{}
+	}
+	externals["encoding/gob.Register"] = func(fr *frame, a []value) value { return nil }
+}
